@@ -80,7 +80,7 @@ META["C07"] = {
     "level": "exploration",
     "rule": "Random histories (4-12 ops quick, up to 30 thorough) over {ingest(batch), force_flush, evict_cache, restart} on 1-2 disk-backed tables whose 3-8 columns are drawn from every C01 value class with NULL probabilities {0, .2, .6, 1} and columns withheld from every 2nd/3rd batch; partition_combine_factor in {0,1,2,4} so that compaction merges 1..k partitions at almost every flush, mem_lz4 on/off, sub-partition size {1 byte, 4 KiB, default}, tiny memory limit in some cases. At every maintenance step a probe battery (SELECT *, aggregate, filter, ORDER BY..LIMIT per table) must give identical answers immediately before and after, and SELECT * must equal the model after every op. One evaluation = one probe comparison. A step only counts as compaction if the catalogue (hook) shows partitions replaced, as eviction if bytes were evicted, as cold if a probe read from disk. Distinct non-trivial = distinct (what the step really did incl. merge arity, cold/warm, lz4, factor, sub-partition size, table count, two preceding ops).",
     "budget": {"quick": 120, "thorough": 450},
-    "floors": {"quick": {"evaluations": 20000, "distinct": 100, "counters": {"compactions": 300, "evictions_with_effect": 100, "cold_reads_after_step": 100}}},
+    "floors": {"quick": {"evaluations": 20000, "distinct": 100, "counters": {"compactions": 300, "evictions_with_effect": 100, "cold_reads_after_step": 100, "cgrid_merges_of_3_or_more": 24}}},
     "assumptions": COMMON_ASSUMPTIONS + ["Restarts inside a history reopen immediately after drop (as the repository's own ingestion_test does)."],
 }
 MANIFEST_TEXT["C07"] = {
@@ -263,7 +263,7 @@ META["C06"] = {
     "rule": "Integer columns in every narrow encoding (u8, nullable u8, positive and negative offset, u16, u32, small mixed sign) plus raw-i64 columns holding the edge values {0, +-1, 2, 255, 256, 65535, 65536, 2^32-1, 2^32, 2^32+1, i64::MIN, i64::MIN+1, 2^63-2, +-2^62, 3037000499, 3037000500}, a zero-rich divisor column and a strictly positive one; 30-400 rows in 1-4 partitions. Statements: SELECT id, e FROM t with expression trees of depth <= 3 over {+,-,*,/,%}, columns and edge constants; and SUM over three layouts (overflow inside one partition, only when partial sums of >= 2 partitions merge, transiently although the total fits) with and without grouping. Oracle (i128 reference): if any row overflows i64 or divides by zero the query must NOT return a result (T-OVF); otherwise every cell must be exact, NULL operands give NULL; a transient SUM overflow may return the exact total or fail, never another number. Distinct non-trivial = distinct (expression shape, must_fail | must_be_exact).",
     "budget": {"quick": 100, "thorough": 450},
     "relfast": True,
-    "floors": {"quick": {"evaluations": 3000, "distinct": 400, "counters": {"agree:must_fail": 500, "agree:must_be_exact": 500}}},
+    "floors": {"quick": {"evaluations": 3000, "distinct": 400, "counters": {"agree:must_fail": 500, "agree:must_be_exact": 500, "boundary_grid_statements": 8000}}},
     "assumptions": COMMON_ASSUMPTIONS + TOL + ["A spurious Overflow error (e.g. (i64::MIN+1) / -1) is an error value and makes no claim: the property allows the query to fail."],
 }
 MANIFEST_TEXT["C06"] = {
@@ -307,5 +307,8 @@ for _p, _lanes in (("C01", ["MIRI-column", "MIRI-db"]), ("C07", ["MIRI-column", 
 for _p in ("C10", "C11"):
     META[_p]["tsan"] = True
     MANIFEST_TEXT[_p]["technique"] += "; thorough tier adds a ThreadSanitizer build of the same workload (self-tested, data-race report = violation)"
+
+META["C07"]["rule"] += " Plus a deterministic compaction grid (always run): one table whose 375 columns enumerate every sequence of per-partition column modes over three consecutive partitions (dense, nullable, absent, empty, trailing NULLs) for int / float / string columns, 6 row-count profiles that put chunk boundaries on and off null-map byte boundaries, mem_lz4 on/off, merged three at a time (combine factor 2, twice per case) or five at a time (factor 4); the table is compared with the model after every step, after eviction and after a restart; the catalogue hook proves the merge arity (floor on merges of >= 3 partitions)."
+META["C06"]["rule"] += " Plus a deterministic boundary grid (always run): every integer column x {+,-,*,/,%} x both operand orders against constants at and next to the i64 limits (MAX-1 .. MAX-65536, MIN+1 .. MIN+65536) and the encoding boundaries, a rotating slice per case so that one run covers the grid."
 
 META["C17"]["floors"]["quick"].setdefault("sets", {})["full_precision_column_kinds"] = ["dense_float", "nullable_float"]
